@@ -36,7 +36,7 @@ import (
 // Cred is a caller credential.
 type Cred struct {
 	Transport string `json:"transport"` // plaintext | tls-no-cert | tls-cert
-	Issuer    string `json:"issuer"`    // ca | other-ca | self-signed
+	Issuer    string `json:"issuer"`    // ca | other-ca | self-signed | server-ca (the authority that issued the server's own certificate)
 	Validity  string `json:"validity"`  // valid | expired | not-yet-valid
 	EKU       string `json:"eku"`       // client | server-only | none
 	CN        string `json:"cn"`
@@ -51,7 +51,12 @@ type Cred struct {
 
 // Case is a set of calls, each on a fresh connection.
 type Case struct {
-	Calls []Call `json:"calls"`
+	// Bundle chooses the daemon: false = the server's certificate is a single PEM issued by the
+	// configured authority; true = it is issued by a separate server authority and configured as a
+	// bundle (leaf followed by that authority's certificate), while the configured client
+	// authority stays the same.
+	Bundle bool   `json:"server_cert_bundle,omitempty"`
+	Calls  []Call `json:"calls"`
 }
 
 // Call is one RPC.
@@ -72,24 +77,37 @@ type daemon struct {
 	addr    string
 	ca      *vkit.CA
 	otherCA *vkit.CA
-	config  *vkit.PermConfig
-	cancel  context.CancelFunc
-	epoch   uint64
-	mu      sync.Mutex
-	methods []string
+	// serverCA issued the server's certificate (== ca unless bundle)
+	serverCA *vkit.CA
+	bundle   bool
+	config   *vkit.PermConfig
+	cancel   context.CancelFunc
+	epoch    uint64
+	mu       sync.Mutex
+	methods  []string
 }
 
 var (
-	dOnce sync.Once
-	d     *daemon
-	dErr  error
+	dOnce [2]sync.Once
+	ds    [2]*daemon
+	dErrs [2]error
 )
 
 func lit(s string) *vkit.Pat { return vkit.LitPat(s) }
 
-func setup() (*daemon, error) {
-	dOnce.Do(func() {
-		d = &daemon{epoch: 10}
+func setup(bundle bool) (*daemon, error) {
+	idx := 0
+	if bundle {
+		idx = 1
+	}
+	dOnce[idx].Do(func() { ds[idx], dErrs[idx] = newDaemon(bundle) })
+
+	return ds[idx], dErrs[idx]
+}
+
+func newDaemon(bundle bool) (d *daemon, dErr error) {
+	func() {
+		d = &daemon{epoch: 10, bundle: bundle}
 		any := &vkit.Pat{Op: "star", Subs: []*vkit.Pat{{Op: "dot"}}}
 		d.config = &vkit.PermConfig{Clients: map[string][]*vkit.PermEntry{
 			"alice": {{Wallet: lit(w1), Ops: []string{"All"}}, {Wallet: lit(vkit.DWallet), Ops: []string{"All"}}},
@@ -111,12 +129,21 @@ func setup() (*daemon, error) {
 		if d.otherCA, dErr = vkit.NewCA("some other authority"); dErr != nil {
 			return
 		}
-		serverCert, serverKey, err := d.ca.Leaf(vkit.LeafSpec{CN: d.node.Name, DNS: []string{d.node.Name, "localhost"}, IPs: []net.IP{net.ParseIP("127.0.0.1")},
+		d.serverCA = d.ca
+		if bundle {
+			if d.serverCA, dErr = vkit.NewCA("server certificate authority"); dErr != nil {
+				return
+			}
+		}
+		serverCert, serverKey, err := d.serverCA.Leaf(vkit.LeafSpec{CN: d.node.Name, DNS: []string{d.node.Name, "localhost"}, IPs: []net.IP{net.ParseIP("127.0.0.1")},
 			NotBefore: time.Now().Add(-time.Hour), NotAfter: time.Now().Add(12 * time.Hour), EKU: []x509.ExtKeyUsage{x509.ExtKeyUsageServerAuth, x509.ExtKeyUsageClientAuth}})
 		if err != nil {
 			dErr = err
 
 			return
+		}
+		if bundle {
+			serverCert = append(append([]byte{}, serverCert...), d.serverCA.CertPEM...)
 		}
 		l, err := net.Listen("tcp", "127.0.0.1:0")
 		if err != nil {
@@ -145,7 +172,7 @@ func setup() (*daemon, error) {
 		}
 		sort.Strings(d.methods)
 		time.Sleep(50 * time.Millisecond)
-	})
+	}()
 
 	return d, dErr
 }
@@ -168,11 +195,15 @@ func (d *daemon) dial(c Cred) (*grpc.ClientConn, error) {
 	}
 	pool := x509.NewCertPool()
 	pool.AppendCertsFromPEM(d.ca.CertPEM)
+	pool.AppendCertsFromPEM(d.serverCA.CertPEM)
 	cfg := &tls.Config{RootCAs: pool, ServerName: d.node.Name, MinVersion: tls.VersionTLS13}
 	if c.Transport == "tls-cert" {
 		ca := d.ca
-		if c.Issuer == "other-ca" {
+		switch c.Issuer {
+		case "other-ca":
 			ca = d.otherCA
+		case "server-ca":
+			ca = d.serverCA
 		}
 		spec := vkit.LeafSpec{CN: c.CN, SelfSigned: c.Issuer == "self-signed", NotBefore: time.Now().Add(-time.Hour), NotAfter: time.Now().Add(time.Hour)}
 		if c.SAN != "" {
@@ -378,9 +409,10 @@ func valuable(resp proto.Message) (sigs int, accounts []string, other string) {
 	return
 }
 
-func class(c Cred) string {
+func class(c Cred, d *daemon) string {
+	fromCA := c.Issuer == "ca" || (c.Issuer == "server-ca" && d.serverCA == d.ca)
 	switch {
-	case c.Transport != "tls-cert", c.Issuer != "ca":
+	case c.Transport != "tls-cert", !fromCA:
 		return "must-refuse"
 	case c.Validity != "valid", c.EKU == "server-only":
 		return "either-way"
@@ -395,7 +427,7 @@ type outcome struct {
 }
 
 func run(c *Case) (*outcome, *vkit.Violation, error) {
-	d, err := setup()
+	d, err := setup(c.Bundle)
 	if err != nil {
 		return nil, nil, err
 	}
@@ -429,7 +461,7 @@ func run(c *Case) (*outcome, *vkit.Violation, error) {
 		if err != nil {
 			return o, nil, err
 		}
-		cls := class(call.Cred)
+		cls := class(call.Cred, d)
 		where := fmt.Sprintf("call %d: %s with credential %+v", ci, call.Method, call.Cred)
 		o.trace = append(o.trace, fmt.Sprintf("%s %s cn=%q -> err=%v", cls, strings.TrimPrefix(call.Method, "/v1."), call.Cred.CN, rpcErr != nil))
 		if cls == "must-refuse" {
@@ -504,7 +536,7 @@ func run(c *Case) (*outcome, *vkit.Violation, error) {
 func genCred(t *rapid.T) Cred {
 	c := Cred{
 		Transport: rapid.SampledFrom([]string{"plaintext", "tls-no-cert", "tls-cert", "tls-cert", "tls-cert", "tls-cert", "tls-cert"}).Draw(t, "transport"),
-		Issuer:    rapid.SampledFrom([]string{"ca", "ca", "other-ca", "self-signed"}).Draw(t, "issuer"),
+		Issuer:    rapid.SampledFrom([]string{"ca", "ca", "ca", "other-ca", "self-signed", "server-ca"}).Draw(t, "issuer"),
 		Validity:  rapid.SampledFrom([]string{"valid", "valid", "valid", "valid", "expired", "not-yet-valid", "valid-in-a-minute", "expired-a-minute-ago"}).Draw(t, "validity"),
 		EKU:       rapid.SampledFrom([]string{"client", "client", "client", "server-only", "none"}).Draw(t, "eku"),
 		CN:        rapid.SampledFrom([]string{"alice", "alice", "alice", "bob", "carol", vkit.NodeName(1), "mallory", "", "Alice", "alice ", "ALICE", strings.ToUpper(vkit.NodeName(1)), vkit.NodeName(1) + "0"}).Draw(t, "cn"),
@@ -523,8 +555,11 @@ func genCred(t *rapid.T) Cred {
 // TestC19 decides C19.
 func TestC19(t *testing.T) {
 	defer vkit.Flush()
-	dd, err := setup()
+	dd, err := setup(false)
 	if err != nil {
+		t.Fatalf("INFRA: %v", err)
+	}
+	if _, err := setup(true); err != nil {
 		t.Fatalf("INFRA: %v", err)
 	}
 	for _, r := range vkit.ReplayFiles("TestC19") {
@@ -543,7 +578,7 @@ func TestC19(t *testing.T) {
 		return
 	}
 	rapid.Check(t, func(rt *rapid.T) {
-		c := &Case{}
+		c := &Case{Bundle: rapid.Bool().Draw(rt, "server_cert_bundle")}
 		n := rapid.IntRange(1, 4).Draw(rt, "ncalls")
 		for i := 0; i < n; i++ {
 			c.Calls = append(c.Calls, Call{Cred: genCred(rt), Method: rapid.SampledFrom(dd.methods).Draw(rt, "method"), Account: rapid.IntRange(0, 3).Draw(rt, "account")})
@@ -565,6 +600,9 @@ func TestC19(t *testing.T) {
 		for _, call := range c.Calls {
 			vkit.S.Class("method:" + strings.TrimPrefix(call.Method, "/v1."))
 			vkit.S.Class("cred:" + call.Cred.Transport + "/" + call.Cred.Issuer)
+			if c.Bundle && call.Cred.Transport == "tls-cert" && call.Cred.Issuer == "server-ca" {
+				vkit.S.Class("certificate-from-the-server-bundle's-authority-which-is-not-the-configured-one")
+			}
 		}
 		nt := o.mustRefusePermittedCN > 0 || o.cnSanDiffer > 0
 		if nt {
